@@ -1387,6 +1387,9 @@ def rw_dyncall(fi, args, spec=None):
     return edits
 
 
+# rewrites that only respell a construct Verus rejects; when the construct is absent they have nothing to do
+DESUGAR_ONLY = {'R-BOOLOP', 'R-ASSERT', 'R-THEN', 'R-UNWRAPORELSE', 'R-LETCHAIN', 'R-ITERALL', 'R-PARAMNAME', 'R-DYNCALL', 'R-SIDECHAN'}
+
 REWRITES = {
     'R-DYNCALL': rw_dyncall,
     'R-FORVEC': rw_forvec,
@@ -1485,7 +1488,16 @@ def emit_fn(gen, sf, item, spec, canary=False, qual='', in_trait=False):
     for rule, args in spec.rewrites:
         if rule not in REWRITES:
             raise LostAnchor(f'unknown rewrite {rule}')
-        edits += REWRITES[rule](fi, args, spec)
+        try:
+            edits += REWRITES[rule](fi, args, spec)
+        except LostAnchor as e:
+            # a pure desugaring that finds nothing to desugar is not needed: the text is then verified as it stands (if the
+            # construct is there in a shape the rule does not recognise, Verus rejects it and the unit is UNDECIDED anyway)
+            if rule in DESUGAR_ONLY and 'did not fire' in str(e):
+                if not canary:
+                    gen.rewrites.append((f'{rule} not needed in fn {item.name} (nothing to desugar)', sf.rel, 0))
+                continue
+            raise
     has_sig = False
     for anchor, text, org in spec.inserts:
         if anchor.startswith('mapcollect ') or anchor.startswith('closure '):
